@@ -151,7 +151,7 @@ def role_params(role, side: str, base=None):
     return out or None
 
 
-def jose_encrypt(plan, keymode: str = "attached", form: str = "dict"):
+def jose_encrypt(plan, keymode: str = "attached", form: str = "dict", preset_epk: bool = False):
     """keymode: 'attached' (key handed to add_recipient / positional), 'keyset' (kid lookup), 'callable'."""
     from joserfc import jwe
     from joserfc.jwk import KeySet
@@ -173,6 +173,11 @@ def jose_encrypt(plan, keymode: str = "attached", form: str = "dict"):
     for r, k in zip(recs, keys):
         h = _rec_header(plan, r, True)
         obj.add_recipient(h or None, k if keymode == "attached" else None)
+        if preset_epk and (r["alg"] in rjwe.ECDH_ES or r["alg"] in rjwe.ECDH_1PU) and r["key"]["kty"] in ("EC", "OKP"):
+            # the caller supplies the ephemeral key pair itself (Recipient.ephemeral_key), with ordinary JWK parameters on it
+            from joserfc.jwk import ECKey, OKPKey
+            kcls = ECKey if r["key"]["kty"] == "EC" else OKPKey
+            obj.recipients[-1].ephemeral_key = kcls.generate_key(gk.key_from_record(r["key"])["crv"], {"kid": "eph-1", "use": "enc"})
     keyarg = None if keymode == "attached" else KeySet(keys) if keymode == "keyset" else (lambda o: keys[[i for i, r in enumerate(recs) if (o.headers().get("kid") == r["kid"])][0]] if len(recs) > 1 else keys[0])
     return jwe.encrypt_json(obj, keyarg, algorithms=ALL_NAMES, sender_key=sender)
 
